@@ -9,12 +9,15 @@ CONSTANTS Ws, Layouts1, Layouts2, BaseKinds, K, CPool, TPool, TextAlpha, MaxText
 VARIABLES w, lay1, lay2, base, ents
 
 TA == <<65>>  TB == <<66>>  TC == <<67>>  TD == <<68>>  TE == <<69>>  TF == <<70>>
+TG == <<71>>  TH == <<72>>  TI == <<73>>  TJ == <<74>>
 \* category layouts: number of candidates per category
 Layout(i) == CASE i = 0 -> <<>>                                  \* tag model with zero categories
                [] i = 1 -> << <<TA>> >>                           \* one fixed tag
                [] i = 2 -> << <<TA, TB>> >>                       \* one trainable category
                [] i = 3 -> << <<TA, TB>>, <<TC>>, <<TD, TE, TF>> >>
                [] i = 4 -> << <<>>, <<TA, TB>> >>                 \* an empty category first
+               [] i = 5 -> << <<TA, TB, TC, TD, TE, TF, TG, TH, TI, TJ>> >>      \* 10 classes: longer than the fixed 8-slot layout
+               [] i = 6 -> << <<TA, TB, TC>>, <<TD, TE, TF>>, <<TG, TH, TI>> >>  \* 9 classes over three categories
                [] i = 9 -> <<>>                                   \* (marker: no second tag model)
 
 Tok1 == <<97>>            \* a
@@ -77,9 +80,17 @@ Expect(m, text) ==
   LET r == RefPredict(m, text, TRUE) IN
   IF ModelNTags(m) = 0 THEN r ELSE [r EXCEPT !.tokens = TokensWithCands(m, text, r)]
 
+\* a second fill_tags after the labels were edited by hand (W, U, N, W, ...): tags follow the CURRENT labels
+Bnd2(text) == [i \in 1..(Len(text) - 1) |-> <<LW, LU, LN>>[((i - 1) % 3) + 1]]
+Expect2(m, text) ==
+  LET b2 == Bnd2(text)  k == ModelNTags(m)
+      rows == IF k > 0 THEN RefTagRows(m, text, b2) ELSE [p \in 1..Len(text) |-> <<>>]
+      st == [text |-> text, bnd |-> b2, ntags |-> k, tags |-> rows]
+  IN [res |-> "ok", bnd |-> b2, ntags |-> k, tags |-> rows,
+      tokens |-> IF k = 0 THEN TokenRecords(st) ELSE TokensWithCands(m, text, st)]
 Case == LET m == Model  tx == SetToSeq(Texts) IN
         [model |-> m, nt |-> ModelNTags(m),
-         runs |-> [i \in 1..Len(tx) |-> [text |-> tx[i], expect |-> Expect(m, tx[i])]]]
+         runs |-> [i \in 1..Len(tx) |-> [text |-> tx[i], expect |-> Expect(m, tx[i]), bnd2 |-> Bnd2(tx[i]), expect2 |-> Expect2(m, tx[i])]]]
 Emit == PrintT(<<"CASE", ToJson(Case)>>)
 WF == WellFormed(Model)
 =============================================================================
